@@ -146,13 +146,6 @@ func flight3Parse(
 			}
 		}
 
-		if !cfg.HasSessionStore {
-			state.SessionID = []byte{}
-		} else {
-			state.SessionID = bytes.Clone(serverHelloMsg.SessionID)
-		}
-
-		state.MasterSecret = []byte{}
 	}
 
 	var serverFlightPull dtlsflight.HandshakeCachePullResult
@@ -177,6 +170,20 @@ func flight3Parse(
 		return 0, nil, nil
 	}
 	state.HandshakeRecvSequence = serverFlightPull.NextSequence
+
+	if hasServerHello {
+		// The new session ID is adopted only once the whole flight is here: this
+		// function runs again for every datagram of the flight, and an ID adopted
+		// on an earlier pass would make the same ServerHello look like a
+		// resumption of it.
+		if !cfg.HasSessionStore {
+			state.SessionID = []byte{}
+		} else {
+			state.SessionID = bytes.Clone(serverHelloMsg.SessionID)
+		}
+
+		state.MasterSecret = []byte{}
+	}
 
 	if h, ok := serverFlightPull.Messages[handshake.TypeCertificate].(*handshake.MessageCertificate); ok {
 		state.PeerCertificates = util.CloneByteSlices(h.Certificate)
